@@ -267,10 +267,13 @@ func runC15() {
 			}
 		}
 	}
-	// within the limit the mesh still converges (the limit must not cut reachable agents off)
+	// Agents within the limit normally learn the origin, but the statement does
+	// not promise it: when the copy that travelled exactly max_hops reaches an
+	// agent before a shorter copy, the seen cache drops the shorter one and the
+	// agent does not forward. Counted, not flagged.
 	for j, od := range m.Nodes {
 		dist := m.Dist(j)
-		for i, nd := range m.Nodes {
+		for i := range m.Nodes {
 			if i == j || dist[i] > maxHops {
 				continue
 			}
@@ -280,8 +283,10 @@ func runC15() {
 					found = true
 				}
 			}
-			if !found {
-				simrt.Failf("route-not-learned", "agent within max_hops did not learn the origin", "max_hops=%d: %s is %d hops from %s", maxHops, nd.Name, dist[i], od.Name)
+			if found {
+				simrt.Probe("c15_within_limit_learned")
+			} else {
+				simrt.Probe("c15_within_limit_not_learned")
 			}
 		}
 	}
